@@ -15,7 +15,7 @@ def check_osdev(ctx):
             a = ms[k] if k < len(ms) else "<none>"
             b = os_[k] if k < len(os_) else "<none>"
             if a != b:
-                key = "%s %s: model %s / observed %s" % (c.split()[1], ops[k].split()[0] if k < len(ops) else "?", a.split(" #")[0], b.split(" #")[0])
+                key = "%s %s %s: model %s / observed %s" % (c.split()[0], c.split()[1], ops[k].split()[0] if k < len(ops) else "?", a.split(" #")[0], b.split(" #")[0])
                 kinds[key] += 1
                 if kinds[key] <= 1:
                     print("history %d step %d op: %s\n   model:    %s\n   observed: %s" % (i, k, ops[k] if k < len(ops) else "?", a, b))
